@@ -1053,6 +1053,9 @@ class XsdElement(XsdComponent, ParticleMixin,
                     if err.elem is not None:
                         raise
                     errors.append(err)
+                else:
+                    if not self.has_fixed_value(elem.text, xsd_type):
+                        errors.append(_("must have the fixed value %r") % self.fixed)
 
             elif self.fixed is not None:
                 elem.text = self.fixed
@@ -1069,6 +1072,9 @@ class XsdElement(XsdComponent, ParticleMixin,
                     if err.elem is not None:
                         raise
                     errors.append(err)
+                else:
+                    if not self.has_fixed_value(elem.text, xsd_type.content):
+                        errors.append(_("must have the fixed value %r") % self.fixed)
 
             elif self.fixed is not None:
                 elem.text = self.fixed
@@ -1086,6 +1092,15 @@ class XsdElement(XsdComponent, ParticleMixin,
 
         del element_data
         return elem
+
+    def has_fixed_value(self, text: Optional[str], xsd_type: XsdSimpleType) -> bool:
+        """
+        Returns `True` if the element has not a fixed value constraint or if the
+        encoded text is equal, in the value space of the type, to the fixed value.
+        """
+        if self.fixed is None or not text or text == self.fixed:
+            return True
+        return strictly_equal(xsd_type.text_decode(text), xsd_type.text_decode(self.fixed))
 
     def is_matching(self, name: Optional[str], default_namespace: Optional[str] = None,
                     group: Optional['XsdGroup'] = None, **kwargs: Any) -> bool:
